@@ -350,16 +350,20 @@ func rulesC15(w *World, r *Report) {
 					continue
 				}
 				bo, isBo := iff.Cond.(*ssa.BinOp)
-				if !isBo || bo.Op != token.LSS {
+				if !isBo {
 					continue
 				}
-				// idx < len(X)
-				lc, isCall := bo.Y.(*ssa.Call)
-				if !isCall || !isBuiltin(lc, "len") {
+				// idx < len(X), in either orientation
+				op, lv, idxV, okC := orientCmp(bo, func(v ssa.Value) bool {
+					c, ok := v.(*ssa.Call)
+					return ok && isBuiltin(c, "len")
+				})
+				if !okC || op != token.GTR {
 					continue
 				}
+				lc := lv.(*ssa.Call)
 				sameSlice := lc.Common().Args[0] == ia.X || newExprCtx(w).expr(lc.Common().Args[0]) == newExprCtx(w).expr(ia.X)
-				sameIdx := bo.X == ia.Index || bo.X == ssa.Value(ph)
+				sameIdx := idxV == ia.Index || idxV == ssa.Value(ph)
 				if sameSlice && sameIdx && edgeDominates(b, b.Succs[0], ia.Block()) {
 					bounded = true
 				}
